@@ -650,7 +650,7 @@ func tputsRun(tw *trace.Writer, rng *rand.Rand, grid int, full bool) error {
 	}
 	// sleeping: observed coarsely; with a pad character the delay is slept, without one never - whatever the flags
 	for _, pad := range []bool{true, false} {
-		for _, s := range []string{"a$<200>b", "a$<150/>b", "a$<150*/>b", "a$<150/*>b", "a$<120*>b"} {
+		for _, s := range []string{"a$<200>b", "a$<150/>b", "a$<150*/>b", "a$<150/*>b", "a$<120*>b", "a$<0.5>b$<130>c", "$<60>x$<1.5*>y$<70/>"} {
 			t2 := &terminfo.Terminfo{}
 			if pad {
 				t2.PadChar = "\x00"
